@@ -5,6 +5,8 @@ tier="${1:-quick}"; missed=0
 for d in seeded/*/; do
   pid=$(basename "$d" | cut -d- -f1)
   if grep -q '"caught_by": "not caught, by design' "$d/meta.json"; then echo "skip   $(basename $d) (not a violation under the recorded interpretation, DESIGN 7.3)"; continue; fi
+  # the check that is recorded as catching it (the property's own check unless the row names another one first)
+  by=$(grep -o '"caught_by": "C[0-9][0-9]' "$d/meta.json" | grep -o 'C[0-9][0-9]$'); [ -n "$by" ] && pid="$by"
   full=$(tools/seedtest.sh "$d" "$pid" "$tier" | head -3)
   out=$(echo "$full" | head -1)
   n=$(echo "$full" | grep -o "([0-9]* case(s))" | head -1 | tr -dc 0-9)
